@@ -737,6 +737,132 @@ theorem version_changes_on_edit {ps ps' : List PA} (hu : UniqueKeys ps) (hu' : U
 theorem filterNs_version (a : Authn) (nss : List String) :
     (a.filterNs nss).version = versionKeys (a.filterNs nss).peerAuths := rfl
 
+/-! ### The version production reads is the one of the FILTERED per-proxy view
+
+Both production readers (`endpoint_builder.go` EDS cache key, `cluster_cache.go` CDS cache key) take
+`proxy.SidecarScope.AuthnPolicies.GetVersion()`, i.e. the version `FilterPeerAuthenticationNamespaces`
+recomputes over the kept configs.  THAT these readers put the version into their cache keys is property
+C06's subject (cache-key completeness); here: the filtered version determines every client-side decision
+about workloads of the kept namespaces. -/
+
+theorem addLoop_kept_sublist (root : String) (l : List PA) (st : AddSt) :
+    ∃ k, (addLoop root st l).kept = st.kept ++ k ∧ k.Sublist l := by
+  induction l generalizing st with
+  | nil => exact ⟨[], by simp [addLoop_nil], List.Sublist.refl _⟩
+  | cons c cs ih =>
+    rw [addLoop_cons]
+    have keep : ∀ st', st'.kept = st.kept ++ [c] →
+        ∃ k, (addLoop root st' cs).kept = st.kept ++ k ∧ k.Sublist (c :: cs) := by
+      intro st' h'
+      obtain ⟨k, hk, hs⟩ := ih st'
+      exact ⟨c :: k, by rw [hk, h']; simp, hs.cons_cons c⟩
+    cases hn : c.nsLevel with
+    | false => rw [addStep_sel hn]; exact keep _ rfl
+    | true =>
+      by_cases hsn : c.ns ∈ st.seen
+      · rw [addStep_skip hn hsn]
+        obtain ⟨k, hk, hs⟩ := ih st
+        exact ⟨k, hk, hs.cons c⟩
+      · by_cases hr : c.ns = root
+        · rw [addStep_root hn hsn hr]; exact keep _ rfl
+        · rw [addStep_ns hn hsn hr]; exact keep _ rfl
+
+theorem initAuthn_peerAuths_sublist (root : String) (ps : List PA) :
+    (initAuthn root ps).peerAuths.Sublist (sortByCreation ps) := by
+  obtain ⟨k, hk, hs⟩ := addLoop_kept_sublist root (sortByCreation ps) AddSt.init
+  have : (initAuthn root ps).peerAuths = k := by
+    show (addLoop root AddSt.init (sortByCreation ps)).kept = k
+    rw [hk]; simp [AddSt.init]
+  rw [this]; exact hs
+
+theorem modeFor_congr (a b : Authn) (h1 : a.peerAuths = b.peerAuths) (h2 : a.rootNs = b.rootNs)
+    (w : Workload) (port : Nat) : a.modeFor w port = b.modeFor w port := by
+  unfold Authn.modeFor Authn.configsFor Authn.forNs
+  rw [h1, h2]
+
+/-- The configs a sidecar view keeps: sorted, without duplicates, all from the input. -/
+theorem sidecarView_peerAuths (root : String) (ps : List PA) (clientNs : String) (importedNs : List String) :
+    (sidecarView root ps clientNs importedNs).peerAuths.Sublist (sortByCreation ps) :=
+  List.Sublist.trans List.filter_sublist (initAuthn_peerAuths_sublist root ps)
+
+theorem mem_of_versionKeys_subset {A B qs qs' : List PA} (hA : ∀ p ∈ A, p ∈ qs) (hB : ∀ p ∈ B, p ∈ qs')
+    (hr : RvDeterminesContent qs qs') (hk : ∀ k, k ∈ versionKeys A → k ∈ versionKeys B) : ∀ p ∈ A, p ∈ B := by
+  intro p hp
+  have : (p.ns, p.name, p.rv) ∈ versionKeys B := hk _ (List.mem_map.mpr ⟨p, hp, rfl⟩)
+  simp only [versionKeys, List.mem_map, Prod.mk.injEq] at this
+  obtain ⟨q, hq, h1, h2, h3⟩ := this
+  rw [hr p (hA p hp) q (hB q hq) h1.symm h2.symm h3.symm]
+  exact hq
+
+/-- **filtered_version_tracks_spec.**  If the per-proxy views (`proxy.SidecarScope.AuthnPolicies`) of two policy
+    sets have the same version (`GetVersion()`), the views hold the same configs, and the effective mode of
+    every workload of a kept namespace (client namespace, root namespace, namespaces of imported services)
+    is the same on every port: a client-side artefact cached under that version is never stale. -/
+theorem filtered_version_tracks_spec {ps ps' : List PA} (hu : UniqueKeys ps) (hu' : UniqueKeys ps')
+    (root clientNs : String) (importedNs : List String) (hrv : RvDeterminesContent ps ps')
+    (hv : ((sidecarView root ps clientNs importedNs).version).Perm ((sidecarView root ps' clientNs importedNs).version)) :
+    (sidecarView root ps clientNs importedNs).peerAuths = (sidecarView root ps' clientNs importedNs).peerAuths ∧
+    ∀ (w : Workload), w.svcNs = [] → w.ns ∈ clientNs :: root :: importedNs → ∀ port : Nat,
+      effectiveMode ps root w port = effectiveMode ps' root w port := by
+  have hsl := sidecarView_peerAuths root ps clientNs importedNs
+  have hsl' := sidecarView_peerAuths root ps' clientNs importedNs
+  have hver : (sidecarView root ps clientNs importedNs).version =
+      versionKeys (sidecarView root ps clientNs importedNs).peerAuths := rfl
+  have hver' : (sidecarView root ps' clientNs importedNs).version =
+      versionKeys (sidecarView root ps' clientNs importedNs).peerAuths := rfl
+  rw [hver, hver'] at hv
+  have hin : ∀ p ∈ (sidecarView root ps clientNs importedNs).peerAuths, p ∈ ps :=
+    fun p hp => mem_sorted.mp (hsl.subset hp)
+  have hin' : ∀ p ∈ (sidecarView root ps' clientNs importedNs).peerAuths, p ∈ ps' :=
+    fun p hp => mem_sorted.mp (hsl'.subset hp)
+  have hrv' : RvDeterminesContent ps' ps := fun q hq p hp h1 h2 h3 => (hrv p hp q hq h1.symm h2.symm h3.symm).symm
+  have h12 := mem_of_versionKeys_subset hin hin' hrv (fun k hk => hv.mem_iff.mp hk)
+  have h21 := mem_of_versionKeys_subset hin' hin hrv' (fun k hk => hv.mem_iff.mpr hk)
+  have hnd : ∀ qs : List PA, UniqueKeys qs → (sortByCreation qs).Nodup := fun qs h =>
+    (List.Perm.nodup_iff (List.mergeSort_perm qs _)).mpr (uniqueKeys_nodup h)
+  have hperm : ((sidecarView root ps clientNs importedNs).peerAuths).Perm
+      (sidecarView root ps' clientNs importedNs).peerAuths :=
+    (List.perm_ext_iff_of_nodup ((hnd ps hu).sublist hsl) ((hnd ps' hu').sublist hsl')).mpr
+      (fun a => ⟨h12 a, h21 a⟩)
+  have heq : (sidecarView root ps clientNs importedNs).peerAuths =
+      (sidecarView root ps' clientNs importedNs).peerAuths :=
+    List.Perm.eq_of_pairwise (le := fun a b => cfgLe a b = true)
+      (fun a b ha hb hab hba => UniqueKeys.eq_of_key hu (hin a ha) (hin b (h21 b hb)) (cfgLe_antisymm hab hba))
+      ((sorted_pairwise ps).sublist hsl) ((sorted_pairwise ps').sublist hsl') hperm
+  refine ⟨heq, fun w hs hw port => ?_⟩
+  have e1 : (sidecarView root ps clientNs importedNs).modeFor w port = effectiveMode ps root w port := by
+    unfold sidecarView
+    rw [filterNs_modeFor _ _ w hs hw (by simp [initAuthn_root]), modeFor_initAuthn, compose_eq_spec hu root w hs]
+  have e2 : (sidecarView root ps' clientNs importedNs).modeFor w port = effectiveMode ps' root w port := by
+    unfold sidecarView
+    rw [filterNs_modeFor _ _ w hs hw (by simp [initAuthn_root]), modeFor_initAuthn, compose_eq_spec hu' root w hs]
+  rw [← e1, ← e2]
+  exact modeFor_congr _ _ heq rfl w port
+
+
+/-- An edit that changes the effective mode of a workload of a kept namespace changes the filtered version. -/
+theorem filtered_version_changes_on_edit {ps ps' : List PA} (hu : UniqueKeys ps) (hu' : UniqueKeys ps')
+    (root clientNs : String) (importedNs : List String) (hrv : RvDeterminesContent ps ps')
+    (w : Workload) (hs : w.svcNs = []) (hw : w.ns ∈ clientNs :: root :: importedNs) (port : Nat)
+    (hdiff : effectiveMode ps root w port ≠ effectiveMode ps' root w port) :
+    ¬ ((sidecarView root ps clientNs importedNs).version).Perm ((sidecarView root ps' clientNs importedNs).version) :=
+  fun hv => hdiff ((filtered_version_tracks_spec hu hu' root clientNs importedNs hrv hv).2 w hs hw port)
+
+/-- The filtered statement is not a corollary of `version_tracks_spec`: the filtered version has keys of
+    the kept namespaces only (an edit elsewhere leaves it as it is), the unfiltered one has a key for
+    every config. -/
+theorem filtered_version_only_kept (root : String) (ps : List PA) (clientNs : String) (importedNs : List String) :
+    (∀ k ∈ (sidecarView root ps clientNs importedNs).version, k.1 ∈ clientNs :: root :: importedNs) ∧
+    (∀ p ∈ ps, (p.ns, p.name, p.rv) ∈ (initAuthn root ps).version) := by
+  refine ⟨fun k hk => ?_, fun p hp => ?_⟩
+  · have hk' : k ∈ versionKeys ((initAuthn root ps).peerAuths.filter
+        (fun c => (clientNs :: root :: importedNs).contains c.ns)) := hk
+    simp only [versionKeys, List.mem_map, List.mem_filter] at hk'
+    obtain ⟨q, ⟨_, hq⟩, rfl⟩ := hk'
+    simpa using hq
+  · simp only [initAuthn, versionKeys, List.mem_map]
+    exact ⟨p, mem_sorted.mpr hp, rfl⟩
+
 /-! ## Non-vacuity: concrete policies meeting the hypotheses, with ties and several per level -/
 
 def exPolicies : List PA :=
